@@ -62,6 +62,17 @@ def solve(P, name, cons, bad, replay=None):
     P.stats.note_query(list(cons) + [bad], r)
     if r == z3.unsat:
         P.obligation(name, "holds", symbolic=True)
+        if replay is not None:
+            # witness: any model of the preconditions, run through the real function by the concrete driver
+            s3 = z3.Solver()
+            s3.add(*cons)
+            if s3.check() == z3.sat:
+                try:
+                    wp = replay(s3.model())
+                except Exception:  # noqa: BLE001
+                    wp = None
+                if wp is not None:
+                    P.witness("c14", wp, "witness-" + name.replace(" ", "_").replace("/", "-").replace("[", "_").replace("]", "_").replace(",", "_").replace("(", "_").replace(")", "_")[:110], name)
         return None
     if r == z3.unknown:
         P.inconclusive_(f"{name}: solver unknown")
